@@ -162,7 +162,7 @@ class Universe:
 
     def __init__(self, F, rng, mode='onshell', order=2, shift='full', lapse='full',
                  matter='T', vacuum=False, tetrad='quasi-Kinnersley', input_form='tensor',
-                 with_K=True):
+                 with_K=True, flat=False):
         self.F, self.rng, self.mode, self.order = F, rng, mode, order
         self.vacuum, self.tetrad = vacuum, tetrad
         self.memo = {}
@@ -178,9 +178,13 @@ class Universe:
         o = order
         rj = lambda: J.rand(F, o, rng, tv)
         # --- spatial metric gamma = psi^4 L L^T, det(L L^T) = 1
-        psi = rj()
-        a, b = rj(), rj()
-        l10, l20, l21 = rj(), rj(), rj()
+        if flat:      # the documented defaults: gamma_ij = delta_ij
+            psi, a, b = c(1), c(1), c(1)
+            l10, l20, l21 = c(0), c(0), c(0)
+        else:
+            psi = rj()
+            a, b = rj(), rj()
+            l10, l20, l21 = rj(), rj(), rj()
         L = arr([[a, 0, 0], [l10, b, 0], [l20, l21, 1 / (a * b)]])
         gt = ein('ik,jk->ij', L, L)
         psi4 = psi ** 4
@@ -189,7 +193,10 @@ class Universe:
         gammadet = psi ** 12
         F.root12_reg.append((gammadet, psi))
         F.sqrt_reg.append((gammadet, psi ** 6))
-        if F.kind == 'f':
+        if flat:
+            phi = c(0)
+            F.log_reg.append((psi, phi))
+        elif F.kind == 'f':
             phi = psi.log()
         else:
             phi0 = J(F, INF, {ZERO_MI: F.num(rng.randrange(2, 10 ** 6))})
